@@ -494,7 +494,7 @@ def conc_run(prop, harness_bin, flavor, gen, seed, tier, tag):
     return res
 
 
-MIRI_PROGRAMS = ["clone_clone", "drop_unjoined", "race_create", "inner_handles", "data_slots", "resolved", "green_share", "green_tokens"]
+MIRI_PROGRAMS = ["clone_clone", "drop_unjoined", "race_create", "inner_handles", "data_slots", "data_churn", "cold_calls", "resolved", "green_share", "green_tokens"]
 
 
 def miri_run(prop, seed, tier, tag):
